@@ -267,9 +267,11 @@ impl BasicLexer {
                         continue;
                     }
                     if !is_basic_digit(pk) {
+                        // Not an exponent after all: the letter starts the next token.
                         exp = false;
                         s.pop();
                         self.chars.push_front(ch);
+                        break;
                     }
                 }
                 if is_basic_digit(pk) {
